@@ -34,6 +34,7 @@ import (
 type sJob struct {
 	Topo  string `json:"topo"`
 	Scen  string `json:"scen"`
+	Bound int    `json:"bound"` // preemption bound (= bound on all costed deviations) of this job
 	Part  int    `json:"part"`  // slice of the job's schedule space explored by this top-level job
 	Parts int    `json:"parts"` //
 }
@@ -201,6 +202,10 @@ func (ob *observer) sync() {
 			t.OnlyAt = ob.onlyAtManagerOp
 		case kRun:
 			ti.kind = kRunner
+			// a generation (its Run thread, its runners and all their goroutines) is ONE thread group: the
+			// interleavings of runners of the same generation (always different pairs) are not enumerated;
+			// what is enumerated is how restarters and other generations interleave with the generation
+			t.Group = p.t.Group
 			if ti.ord < len(p.tasks) {
 				ti.pair = p.tasks[ti.ord]
 			} else {
@@ -521,22 +526,25 @@ func sExec(j sJob, p *sPrep, win *dfsRun, states *vrt.StateSet) (res sResult) {
 			w.HarnessErr = "scenario " + j.Scen
 			return
 		}
-		// quiescence: nothing but sleeping pollers can run
-		w.V.WaitIdle()
-		for round := 0; round < 3 && !w.V.Closing() && ob.vio == nil; round++ {
-			// a runner that slept after an error gets its retry
-			behind := false
-			cur := cursorMax(w)
-			for pair := range ob.liveRunners() {
-				if cur[pair] < 2 {
-					behind = true
+		// quiescence: nothing but sleeping pollers can run. Time then advances (every sleeper polls once more)
+		// until a whole round changes nothing: no thread ended, nothing was committed, no request returned.
+		progress := func() string {
+			done := 0
+			for _, t := range w.V.Threads() {
+				if t.Done() {
+					done++
 				}
 			}
-			if !behind {
-				break
-			}
+			return fmt.Sprintf("%d/%d/%d/%x", done, len(w.V.Threads()), nReturned, w.CommitHash)
+		}
+		w.V.WaitIdle()
+		for round := 0; round < 8 && !w.V.Closing() && ob.vio == nil; round++ {
+			before := progress()
 			w.V.AdvanceTime()
 			w.V.WaitIdle()
+			if progress() == before {
+				break
+			}
 		}
 		if w.V.Closing() {
 			return
@@ -709,31 +717,34 @@ func sJobs(thorough bool) []sJob {
 	if n, _ := strconv.Atoi(os.Getenv("C20_PARTS")); n > 0 {
 		parts = n
 	}
-	add := func(topos []string, scens []string) {
+	add := func(bound int, topos []string, scens []string) {
+		if v, _ := strconv.Atoi(os.Getenv("C20_BOUND")); v > 0 {
+			bound = v
+		}
 		for _, t := range topos {
 			for _, s := range scens {
 				for k := 0; k < parts; k++ {
-					jobs = append(jobs, sJob{Topo: t, Scen: s, Part: k, Parts: parts})
+					jobs = append(jobs, sJob{Topo: t, Scen: s, Bound: bound, Part: k, Parts: parts})
 				}
 			}
 		}
 	}
 	if thorough {
-		add([]string{"1d", "1l", "1c"}, []string{"two", "early", "b2b", "after", "late", "fail"})
-		add([]string{"2d", "2l"}, []string{"early", "after", "late"})
+		add(3, []string{"1d", "1l", "1c"}, []string{"b2b", "after", "late", "fail"})
+		add(2, []string{"1d", "1l", "1c"}, []string{"two", "early"})
+		add(2, []string{"2d", "2l"}, []string{"early", "after", "late"})
 		return jobs
 	}
-	add([]string{"1d", "1l"}, []string{"early", "b2b", "after", "late", "fail"})
-	add([]string{"1c"}, []string{"after", "late"})
+	add(2, []string{"1d", "1l"}, []string{"b2b", "after", "late", "fail"})
+	add(1, []string{"1d", "1l"}, []string{"early"})
+	add(2, []string{"1c"}, []string{"after", "late"})
+	add(1, []string{"1d", "1l"}, []string{"two"})
 	return jobs
 }
 
-func sBounds(thorough bool) explore.Bounds {
+func (j sJob) bounds() explore.Bounds {
 	var b explore.Bounds
-	b[0], b[vrt.KPreempt] = 2, 2
-	if thorough {
-		b[0], b[vrt.KPreempt] = 3, 3
-	}
+	b[0], b[vrt.KPreempt] = j.Bound, j.Bound
 	return b
 }
 
